@@ -593,6 +593,8 @@ class SrvAdapter:
                 res = ['ok', self._sess_tok(r)]
             elif act == 'SessionBlock':
                 res = ['ok', self._session_block(a)]
+            elif act == 'SessionNested':
+                res = ['ok', self._session_nested(a)]
             elif act == 'GetEnviron':
                 r = sio.get_environ(self._real_sid(a['sid']),
                                     namespace=a['ns'])
@@ -693,6 +695,27 @@ class SrvAdapter:
             before = self._sess_tok(s)
             s.clear()
             s['k_' + a['val']] = 1
+            return before
+
+    def _session_nested(self, a):
+        """An outer block that only looks, an inner block (same client, same
+        namespace) that writes."""
+        sio = self.sio
+        sid = self._real_sid(a['sid'])
+        if self.is_async:
+            async def _w():
+                async with sio.session(sid, namespace=a['ns']) as outer:
+                    before = self._sess_tok(outer)
+                    async with sio.session(sid, namespace=a['ns']) as s:
+                        s.clear()
+                        s['k_' + a['val']] = 1
+                    return before
+            return self._run(_w())
+        with sio.session(sid, namespace=a['ns']) as outer:
+            before = self._sess_tok(outer)
+            with sio.session(sid, namespace=a['ns']) as s:
+                s.clear()
+                s['k_' + a['val']] = 1
             return before
 
     def _bin_frame(self, a):
